@@ -36,7 +36,11 @@ import (
 	"golang.org/x/tools/go/ssa/ssautil"
 )
 
-const modPath = "github.com/openacid/low"
+// the module under analysis (overridable with -mod: the translator's own tests run it on testdata/fx)
+var modPath = "github.com/openacid/low"
+
+// its packages that are loaded (module-internal dependencies are followed)
+var pkgNames = []string{"bitmap", "bmtree", "bitstr", "bitword", "sigbits"}
 
 // the functions C19 lists (short names: module prefix stripped), by package
 var listed = []string{
@@ -382,28 +386,58 @@ func (a *analysis) rootsOf1(v ssa.Value) rootset {
 // loadRoots: roots of a pointer-like value loaded from *addr.
 func (a *analysis) loadRoots(fn *ssa.Function, addr ssa.Value) rootset {
 	out := rootset{}
+	field := -1
+	var ftype types.Type
+	if fa, ok := addr.(*ssa.FieldAddr); ok {
+		field, ftype = fa.Field, fa.X.Type()
+	}
 	for r := range a.rootsOf(addr) {
 		if r.k != kFresh {
 			out.add(r) // memory reachable from r
 			continue
 		}
-		out.addAll(a.contentRoots(fn, r.site))
+		out.addAll(a.contentRootsField(r.site, field, ftype))
 	}
 	return out
 }
 
-// contentRoots: roots of the pointer-like values stored (in fn) into the fresh allocation site.
+// contentRoots: roots of the pointer-like values stored into the fresh allocation site (any field).
 func (a *analysis) contentRoots(fn *ssa.Function, site ssa.Value) rootset {
+	return a.contentRootsField(site, -1, nil)
+}
+
+// contentRootsField: ... restricted, when the load is of field number [field] of a struct of type [ftype],
+// to the stores into that same field (stores whose address is not a field address of that type count always).
+func (a *analysis) contentRootsField(site ssa.Value, field int, ftype types.Type) rootset {
 	out := rootset{}
 	for _, st := range a.storesInto(site) {
-		if pointerLike(st.Val.Type()) {
-			out.addAll(a.rootsOf(st.Val))
+		if !pointerLike(st.Val.Type()) {
+			continue
 		}
+		if field >= 0 {
+			if fa, ok := st.Addr.(*ssa.FieldAddr); ok && types.Identical(fa.X.Type(), ftype) && fa.Field != field {
+				continue
+			}
+		}
+		out.addAll(a.rootsOf(st.Val))
 	}
-	if a.isEscaped(site) {
+	if a.isEscaped(site) && sitePointsToPointers(site) {
 		out.add(root{k: kUnknown, why: "loaded from a local whose address escapes"})
 	}
 	return out
+}
+
+// does the memory allocated at the site hold pointer-like values at all?
+func sitePointsToPointers(site ssa.Value) bool {
+	switch t := site.Type().Underlying().(type) {
+	case *types.Pointer:
+		return pointerLike(t.Elem())
+	case *types.Slice:
+		return pointerLike(t.Elem())
+	case *types.Map:
+		return pointerLike(t.Elem()) || pointerLike(t.Key())
+	}
+	return true
 }
 
 func siteOwner(site ssa.Value) *ssa.Function {
@@ -781,7 +815,13 @@ func (a *analysis) computeEscapes(fn *ssa.Function) {
 		for _, ins := range b.Instrs {
 			switch ins := ins.(type) {
 			case *ssa.Store:
-				mark(ins.Val)
+				// stored into memory that is shared or has itself escaped (a local container is followed exactly)
+				for r := range a.rootsOf(ins.Addr) {
+					if r.k != kFresh || a.isEscaped(r.site) {
+						mark(ins.Val)
+						break
+					}
+				}
 			case *ssa.MakeInterface:
 				mark(ins.X)
 			case *ssa.Send:
@@ -824,29 +864,67 @@ func coqBool(b bool) string {
 	return "false"
 }
 
-func main() {
-	out := flag.String("o", "", "output Effects.v (default stdout)")
-	report := flag.String("report", "", "human-readable report file (function + source position of every shared write)")
-	tags := flag.String("tags", "verif", "build tags")
-	flag.Parse()
+func main() { os.Exit(run(os.Args[1:])) }
+
+func splitList(s string) []string {
+	var l []string
+	for _, x := range strings.Split(s, ",") {
+		if x = strings.TrimSpace(x); x != "" {
+			l = append(l, x)
+		}
+	}
+	return l
+}
+
+func run(args []string) int {
+	fs := flag.NewFlagSet("effects", flag.ContinueOnError)
+	out := fs.String("o", "", "output Effects.v (default stdout)")
+	report := fs.String("report", "", "human-readable report file (function + source position of every shared write)")
+	tags := fs.String("tags", "verif", "build tags")
+	dir := fs.String("dir", "", "directory to load the packages from (default: current directory)")
+	mod := fs.String("mod", "", "module path (default github.com/openacid/low)")
+	pk := fs.String("pkgs", "", "comma-separated package names inside the module (default: the five packages of C19)")
+	li := fs.String("listed", "", "comma-separated entry functions replacing the listed ones (tests)")
+	wi := fs.String("widened", "", "comma-separated entry functions replacing the widened ones (tests)")
+	mu := fs.String("mutators", "", "comma-separated entry functions replacing the mutators (tests)")
+	if err := fs.Parse(args); err != nil {
+		return 2
+	}
+	if *mod != "" {
+		modPath = *mod
+		listed, widened, mutators = nil, nil, nil
+	}
+	if *pk != "" {
+		pkgNames = splitList(*pk)
+	}
+	if *li != "" {
+		listed = splitList(*li)
+	}
+	if *wi != "" {
+		widened = splitList(*wi)
+	}
+	if *mu != "" {
+		mutators = splitList(*mu)
+	}
 
 	cfg := &packages.Config{
 		Mode: packages.NeedName | packages.NeedFiles | packages.NeedCompiledGoFiles | packages.NeedImports |
 			packages.NeedDeps | packages.NeedTypes | packages.NeedSyntax | packages.NeedTypesInfo | packages.NeedTypesSizes | packages.NeedModule,
 		BuildFlags: []string{"-tags=" + *tags},
 		Env:        os.Environ(),
+		Dir:        *dir,
 	}
 	var pats []string
-	for _, p := range []string{"bitmap", "bmtree", "bitstr", "bitword", "sigbits"} {
+	for _, p := range pkgNames {
 		pats = append(pats, modPath+"/"+p)
 	}
 	pkgs, err := packages.Load(cfg, pats...)
 	if err != nil {
 		fmt.Fprintln(os.Stderr, "effects: load:", err)
-		os.Exit(2)
+		return 2
 	}
 	if packages.PrintErrors(pkgs) > 0 {
-		os.Exit(2)
+		return 2
 	}
 	modDir := ""
 	// module-internal dependencies of the five packages get function bodies too
@@ -889,6 +967,39 @@ func main() {
 	for fn := range ssautil.AllFunctions(prog) {
 		if inModule(fn) && hasBody(fn) {
 			a.fns = append(a.fns, fn)
+		}
+	}
+	// methods of every named type of the module packages, whether or not anything refers to them
+	have := map[*ssa.Function]bool{}
+	for _, fn := range a.fns {
+		have[fn] = true
+	}
+	var addFn func(fn *ssa.Function)
+	addFn = func(fn *ssa.Function) {
+		if fn == nil || have[fn] || !inModule(fn) || !hasBody(fn) {
+			return
+		}
+		have[fn] = true
+		a.fns = append(a.fns, fn)
+		for _, g := range fn.AnonFuncs {
+			addFn(g)
+		}
+	}
+	for _, p := range prog.AllPackages() {
+		if !(p.Pkg.Path() == modPath || strings.HasPrefix(p.Pkg.Path(), modPath+"/")) {
+			continue
+		}
+		for _, m := range p.Members {
+			tn, ok := m.(*ssa.Type)
+			if !ok {
+				continue
+			}
+			for _, T := range []types.Type{tn.Type(), types.NewPointer(tn.Type())} {
+				ms := prog.MethodSets.MethodSet(T)
+				for i := 0; i < ms.Len(); i++ {
+					addFn(prog.MethodValue(ms.At(i)))
+				}
+			}
 		}
 	}
 	sort.Slice(a.fns, func(i, j int) bool { return a.fns[i].String() < a.fns[j].String() })
@@ -1215,11 +1326,11 @@ func main() {
 		if string(old) != sb.String() {
 			if err := os.MkdirAll(filepath.Dir(*out), 0o755); err != nil {
 				fmt.Fprintln(os.Stderr, err)
-				os.Exit(2)
+				return 2
 			}
 			if err := os.WriteFile(*out, []byte(sb.String()), 0o644); err != nil {
 				fmt.Fprintln(os.Stderr, err)
-				os.Exit(2)
+				return 2
 			}
 		}
 	}
@@ -1269,4 +1380,5 @@ func main() {
 	}
 	fmt.Fprintf(os.Stderr, "effects: %d functions, %d listed (%d missing), %d reachable, %d shared writes, %d unclassified; widened: %d shared writes, %d unclassified; mutators: %d writes through the receiver, %d other shared writes\n",
 		len(a.fns), len(gl.analysed), len(gl.missing), len(gl.reachable), len(gl.writes), len(gl.unclassified), len(gw.writes), len(gw.unclassified), len(gm.recvWrites), len(gm.writes))
+	return 0
 }
